@@ -77,7 +77,7 @@ func (p *stubServiceZero) Authenticate(msg *net.Message, c Channel) error {
 		if err != nil {
 			return m, fmt.Errorf("read map size: %s", err)
 		}
-		m = make(map[string]value.Value, size)
+		m = make(map[string]value.Value)
 		for i := 0; i < int(size); i++ {
 			k, err := basic.ReadString(buf)
 			if err != nil {
@@ -970,12 +970,13 @@ func readMetaMethod(r io.Reader) (s MetaMethod, err error) {
 		if err != nil {
 			return b, fmt.Errorf("read slice size: %s", err)
 		}
-		b = make([]MetaMethodParameter, size)
+		b = make([]MetaMethodParameter, 0)
 		for i := 0; i < int(size); i++ {
-			b[i], err = readMetaMethodParameter(r)
+			v, err := readMetaMethodParameter(r)
 			if err != nil {
 				return b, fmt.Errorf("read slice value: %s", err)
 			}
+			b = append(b, v)
 		}
 		return b, nil
 	}(); err != nil {
@@ -1110,7 +1111,7 @@ func readMetaObject(r io.Reader) (s MetaObject, err error) {
 		if err != nil {
 			return m, fmt.Errorf("read map size: %s", err)
 		}
-		m = make(map[uint32]MetaMethod, size)
+		m = make(map[uint32]MetaMethod)
 		for i := 0; i < int(size); i++ {
 			k, err := basic.ReadUint32(r)
 			if err != nil {
@@ -1131,7 +1132,7 @@ func readMetaObject(r io.Reader) (s MetaObject, err error) {
 		if err != nil {
 			return m, fmt.Errorf("read map size: %s", err)
 		}
-		m = make(map[uint32]MetaSignal, size)
+		m = make(map[uint32]MetaSignal)
 		for i := 0; i < int(size); i++ {
 			k, err := basic.ReadUint32(r)
 			if err != nil {
@@ -1152,7 +1153,7 @@ func readMetaObject(r io.Reader) (s MetaObject, err error) {
 		if err != nil {
 			return m, fmt.Errorf("read map size: %s", err)
 		}
-		m = make(map[uint32]MetaProperty, size)
+		m = make(map[uint32]MetaProperty)
 		for i := 0; i < int(size); i++ {
 			k, err := basic.ReadUint32(r)
 			if err != nil {
